@@ -273,6 +273,7 @@ func genScenario(p Profile, rs uint64, tier string) (*Scenario, *ExploreCfg) {
 		// the replication world: in the real-SQL runs the writers' data statements, the pipelines' log reads
 		// (real storage driver + Logs().Paginate) run for real; the system store independently in half
 		sc.Knobs.RealSysSQL = RunSeed(0x737973, rs)%2 == 0
+		sc.Knobs.SeparateWorker = sc.Knobs.RealSQL && RunSeed(0x736570, rs)%2 == 0
 		switch os.Getenv("VERIF_SQL") {
 		case "real":
 			sc.Knobs.RealSysSQL = true
@@ -497,7 +498,7 @@ func TestSim(t *testing.T) {
 			continue
 		}
 		handle(p.Name, run, rs, sc, res.Recorded, res)
-		if len(out.Violations) >= 3 {
+		if len(out.Violations) >= 12 {
 			break
 		}
 	}
